@@ -37,7 +37,7 @@ var opKinds = []string{
 	"deliver", "deliver", "deliver", "deliver", "deliver", "deliver",
 	"own", "own", "own", "own",
 	"timeout", "timeout", "timeout",
-	"fair", "fair", "drop", "drop", "dup", "sync",
+	"fair", "fair", "drop", "drop", "dup", "sync", "nilrounds", "nilrounds",
 }
 
 func genCase(t *rapid.T) Case {
@@ -382,6 +382,9 @@ func runCase(c Case, x *h.Ctx) {
 		x.Label("suffix-stalled")
 	}
 	x.Labelf("validators:%d", len(c.Powers))
+	if d.Stats.NilRounds > 0 {
+		x.Labelf("undecided-rounds-before-crash:%d", min64(int64(d.Stats.NilRounds), 12))
+	}
 	if len(c.Byz) > 0 {
 		x.Label("byzantine-validator-present")
 		if d.Stats.ByzClaims > 0 {
